@@ -216,7 +216,8 @@ def exc_instance(d):
     cls = exc_class(d)
     if cls is BadRepr:
         return BadRepr()
-    return cls('fatal' if d.get('k') == 'raise_fatal' else 'eh' if d.get('k') == 'raise' else 'boom')
+    return cls(d['msg'] if 'msg' in d else
+               'fatal' if d.get('k') == 'raise_fatal' else 'eh' if d.get('k') == 'raise' else 'boom')
 
 
 class RecIter:
